@@ -155,8 +155,8 @@ Definition stmt_ok (s : stmt) : Prop :=
   | _ => True
   end.
 
-Lemma stmt_sound s sigma rm rc l rm' :
-  stmt_ok s -> Inv sigma rm rc -> m_i rm = c_i rc -> tr_stmt T s = Ok l -> exec_stmt F s rm = Some rm' ->
+Lemma stmt_sound sq s sigma rm rc l rm' :
+  stmt_ok s -> Inv sigma rm rc -> m_i rm = c_i rc -> tr_stmt T sq s = Ok l -> exec_stmt F s rm = Some rm' ->
   Inv (apply_assigns l sigma) rm' rc /\ m_i rm' = c_i rc.
 Proof.
   destruct s as [a | brs els | lo st hi body]; intros Hok HI Hi Htr Hex; simpl in Htr, Hex.
@@ -169,17 +169,17 @@ Proof.
     split; [exact H1 | congruence].
 Qed.
 
-Lemma stmts_sound body : forall sigma rm rc l rm',
-  Forall stmt_ok body -> Inv sigma rm rc -> m_i rm = c_i rc -> tr_stmts T body = Ok l ->
+Lemma stmts_sound sq body : forall sigma rm rc l rm',
+  Forall stmt_ok body -> Inv sigma rm rc -> m_i rm = c_i rc -> tr_stmts T sq body = Ok l ->
   exec F body rm = Some rm' -> Inv (apply_assigns l sigma) rm' rc /\ m_i rm' = c_i rc.
 Proof.
   induction body as [| s r IH]; intros sigma rm rc l rm' Hok HI Hi Htr Hex; simpl in Htr, Hex.
   - injection Htr as <-. injection Hex as <-. simpl. split; assumption.
-  - destruct (tr_stmt T s) as [ls |] eqn:Es; [| discriminate Htr].
-    destruct (tr_stmts T r) as [lr |] eqn:Er; [| discriminate Htr]. injection Htr as <-.
+  - destruct (tr_stmt T sq s) as [ls |] eqn:Es; [| discriminate Htr].
+    destruct (tr_stmts T sq r) as [lr |] eqn:Er; [| discriminate Htr]. injection Htr as <-.
     destruct (exec_stmt F s rm) as [rm1 |] eqn:E1; [| discriminate Hex].
     inversion Hok as [| ? ? Hs Hr]; subst.
-    destruct (stmt_sound s sigma rm rc ls rm1 Hs HI Hi Es E1) as [HI1 Hi1].
+    destruct (stmt_sound sq s sigma rm rc ls rm1 Hs HI Hi Es E1) as [HI1 Hi1].
     rewrite apply_assigns_app. apply (IH _ rm1 rc lr rm' Hr HI1 Hi1 eq_refl Hex).
 Qed.
 
@@ -196,12 +196,12 @@ Proof.
   intro y. exists (c_sc rc y). split; [apply H1 | reflexivity].
 Qed.
 
-Lemma function_sound body l rm rc rm' :
-  Forall stmt_ok body -> init_rel rm rc -> tr_stmts T body = Ok l -> exec F body rm = Some rm' ->
+Lemma function_sound sq body l rm rc rm' :
+  Forall stmt_ok body -> init_rel rm rc -> tr_stmts T sq body = Ok l -> exec F body rm = Some rm' ->
   forall x, exists q, m_sc rm' x = VNum q /\ ca_eval F (apply_assigns l sigma0 x) rc = Some q.
 Proof.
   intros Hok Hinit Htr Hex.
-  destruct (stmts_sound body sigma0 rm rc l rm' Hok (init_inv rm rc Hinit)
+  destruct (stmts_sound sq body sigma0 rm rc l rm' Hok (init_inv rm rc Hinit)
               (proj2 (proj2 (proj2 Hinit))) Htr Hex) as [(H1 & _) _].
   exact H1.
 Qed.
@@ -251,7 +251,7 @@ Definition ifdep_stmt : stmt :=
 Definition ifdep_rc : cenv := {| c_sc := fun _ => z2q 3; c_der := fun _ => 0; c_arr := fun _ _ => 0; c_i := 0%Z |}.
 Definition ifdep_rm : menv := {| m_sc := fun _ => VNum (z2q 3); m_der := fun _ => 0; m_arr := fun _ _ => 0; m_i := 0%Z |}.
 Lemma ifdep_differs :
-  match tr_stmts good_table [ifdep_stmt] with
+  match tr_stmts good_table false [ifdep_stmt] with
   | Ok l =>
       (* sequential execution: a = -2, b = 1 *)
       val_is (exec (fun _ q => q) [ifdep_stmt] ifdep_rm) 1%positive (-2) = true /\
@@ -262,3 +262,13 @@ Lemma ifdep_differs :
   | Err _ => False
   end.
 Proof. vm_compute. repeat split; reflexivity. Qed.
+
+(* with the repaired exitIfStatement (seq_if = true) the same statement is translated sequentially *)
+Lemma ifdep_repaired :
+  match tr_stmts good_table true [ifdep_stmt] with
+  | Ok l =>
+      qc_is (ca_eval (fun _ q => q) (apply_assigns l sigma0 1%positive) ifdep_rc) (-2) = true /\
+      qc_is (ca_eval (fun _ q => q) (apply_assigns l sigma0 2%positive) ifdep_rc) 1 = true
+  | Err _ => False
+  end.
+Proof. vm_compute. split; reflexivity. Qed.
